@@ -99,6 +99,7 @@ class Result:
     env: Dict[str, T]
     attrs: Dict[Tuple[T, str], T]
     interp: "Interp"
+    fallthrough: Any = None
 
     def calls(self, name: Optional[str] = None, pred=None) -> List[Event]:
         out = []
@@ -155,14 +156,16 @@ class Interp:
         frame = self._make_frame(fn, args or {}, self_cls, depth=0)
         self.stack.append(fn.qualname)
         try:
-            self.exec_block(fn.node.body, frame, TRUE)
+            out = self.exec_block(fn.node.body, frame, TRUE)
         finally:
             self.stack.pop()
         ret = self._join_returns(frame)
         for i, e in enumerate(self.events):
             e.idx = i
-        return Result(fn, ret, frame.returns, self.events, frame.env,
-                      dict(self.attrs), self)
+        res = Result(fn, ret, frame.returns, self.events, frame.env,
+                     dict(self.attrs), self)
+        res.fallthrough = out
+        return res
 
     def run_module(self, module: Module) -> Result:
         """interpret the module body (import-time code) as a function"""
